@@ -172,6 +172,21 @@ impl des::net::blocks::ModuleBlock for ScopedAdder {
 }
 
 #[derive(Debug)]
+/// The application inside the network simulation (`Sim<Inner>`): its own tear-down hook may report an error.
+pub struct Inner {
+    pub fail_end: bool,
+}
+impl des::runtime::EventLifecycle<Sim<Inner>> for Inner {
+    fn at_sim_end(rt: &mut Runtime<Sim<Inner>>) -> Result<(), RuntimeError> {
+        if rt.app.inner.fail_end {
+            Err(RuntimeError::from(ScriptedEndError))
+        } else {
+            Ok(())
+        }
+    }
+}
+
+#[derive(Debug)]
 pub struct ScriptedEndError;
 impl std::fmt::Display for ScriptedEndError {
     fn fmt(&self, f: &mut std::fmt::Formatter<'_>) -> std::fmt::Result {
@@ -221,6 +236,9 @@ pub struct NetProgram {
     /// tasks capture a lease whose destructor consults the global view of the simulation
     #[serde(default)]
     pub leases: bool,
+    /// the application inside the simulation reports an error from its own `at_sim_end`
+    #[serde(default)]
+    pub inner_end_err: bool,
     /// messages the driver injects from outside (`Runtime::add_message_onto`) while the run is paused
     #[serde(default)]
     pub injections: Vec<Inject>,
@@ -1061,7 +1079,7 @@ pub fn run_net(prog: &NetProgram, opts: &RunOpts) -> NetResult {
     let injected_at: RefCell<Vec<u64>> = RefCell::new(Vec::new());
     let outcome = std::panic::catch_unwind(std::panic::AssertUnwindSafe(|| {
         let mut build = BuildLog::default();
-        let mut sim = Sim::new(());
+        let mut sim = Sim::new(Inner { fail_end: prog.inner_end_err });
         let gp = prog.clone();
         let mk_stack = move || {
             let m = with_ctx(|c| c.building).unwrap_or(0);
@@ -1348,7 +1366,7 @@ pub fn run_net(prog: &NetProgram, opts: &RunOpts) -> NetResult {
             drop(rt);
             return (build, None, false);
         }
-        let inj_gate = |rt: &Runtime<Sim<()>>, j: &Inject| -> Option<GateRef> {
+        let inj_gate = |rt: &Runtime<Sim<Inner>>, j: &Inject| -> Option<GateRef> {
             let m = j.m as usize % nmod.max(1);
             let f = &flat[m];
             if f.is_empty() {
